@@ -449,3 +449,23 @@ func sameCellLoad(a, b ssa.Value) bool {
 	}
 	return false
 }
+
+// FactHoldsValue reports whether, whenever control is in block b, a boolean value selected by sel is known to equal want
+// (a dominating If on that value, possibly negated, whose corresponding successor has the If as only predecessor).
+func FactHoldsValue(b *ssa.BasicBlock, sel func(ssa.Value) bool, want bool) bool {
+	for _, e := range edgeFacts(b) {
+		i := ifOf(e.From)
+		if i == nil {
+			continue
+		}
+		atom, neg := condAtom(i.Cond)
+		if !sel(atom) {
+			continue
+		}
+		val := (e.Succ == 0) != neg
+		if val == want {
+			return true
+		}
+	}
+	return false
+}
